@@ -366,11 +366,30 @@ def validate(tlc_lines, wd, name="trace", module="Trace_Arith", timeout=3000, ch
     size = (len(tlc_lines) + nchunks - 1) // nchunks
     results = [None] * nchunks
     errs = []
+    # without overlap the lines are independent: balance the chunks by bytes (big events cluster, e.g. large degrees last)
+    assign = None
+    if overlap == 0 and nchunks > 1:
+        assign = [[] for _ in range(nchunks)]
+        load = [0] * nchunks
+        for i in sorted(range(len(tlc_lines)), key=lambda i: -len(tlc_lines[i])):
+            k = load.index(min(load))
+            assign[k].append(i)
+            load[k] += len(tlc_lines[i]) + 1
+        for a in assign:
+            a.sort()
 
     def work(k):
-        lo = max(0, k * size - overlap) if k > 0 else 0
-        part = tlc_lines[lo:(k + 1) * size]
-        if not part or k * size >= len(tlc_lines):
+        if assign is not None:
+            idx = assign[k]
+            part = [tlc_lines[i] for i in idx]
+            lo = None
+        else:
+            lo = max(0, k * size - overlap) if k > 0 else 0
+            part = tlc_lines[lo:(k + 1) * size]
+            idx = None
+            if k * size >= len(tlc_lines):
+                part = []
+        if not part:
             results[k] = ([], dict(generated=0, distinct=0))
             return
         d = os.path.join(wd, "%s_%d" % (name, k))
@@ -386,7 +405,7 @@ def validate(tlc_lines, wd, name="trace", module="Trace_Arith", timeout=3000, ch
         def on_line(tag, obj):
             if tag == "BAD":
                 for b in obj["bad"]:
-                    bad.append((b[0] + lo, b[1]))
+                    bad.append((idx[b[0] - 1] + 1, b[1]) if idx is not None else (b[0] + lo, b[1]))
                 if obj["lines"] != len(part):
                     errs.append(ToolError("TLC read %d lines, expected %d" % (obj["lines"], len(part))))
         try:
